@@ -89,7 +89,7 @@ structure St where
   flaggers : List Waiter := []             -- wait() calls blocked in event.wait()
   outs : List Out := []
   submitted : List Nat := []               -- ghost: every element any producer will yield, in submission order
-  delivered : List Nat := []               -- ghost: elements of successful calls
+  delivered : List Nat := []               -- ghost: the arguments of the successful calls, in call order
   subTimes : List Nat := []                -- ghost: the instants of all submissions so far
   lastSub : Nat := 0                       -- ghost: the instant of the latest submission
   retLog : List (Nat × Nat) := []          -- ghost: for every `wait()` that returned, (its id, its `before`)
@@ -207,7 +207,7 @@ def fireTimed (s : St) (when kind : Nat) : St :=
                unfinished := s.unfinished - 1, gens := [], pc := .iter }
     | .running _ ok =>
       let s := { s with outs := s.outs ++ [Out.fin s.now ok] }
-      if ok then { setEvent { s with delivered := s.delivered ++ s.inputs, inputs := [] } with pc := .endround }
+      if ok then { setEvent { s with delivered := s.delivered ++ sortNat s.inputs, inputs := [] } with pc := .endround }
       else { s with gens := [], pc := .iter }
     | _ => s
 
